@@ -210,10 +210,10 @@ def run(ctx, ck) -> None:
     sub = type(ck)(ck.pid)
     c17.run(ctx, sub)
     for o in sub.obs:
-        if o.rule.endswith(('P1', 'P2', 'P3', 'P5')):
+        if o.rule.endswith(('P1', 'P2', 'P3', 'P5', 'P7')):
             o.rule = f'{ck.pid}.Q7'
             ck.obs.append(o)
-    ck.floor('Q7', sum(1 for o in ck.obs if o.rule.endswith('Q7')), 10, 'pixel-lookup obligations')
+    ck.floor('Q7', sum(1 for o in ck.obs if o.rule.endswith('Q7')), 3, 'pixel-lookup obligations')
 
     # ------------------------------------------------------------------ Q8 P^T P reduces to the hit-count diagonal (shared with C01.R-PTP)
     from . import c01
